@@ -301,8 +301,10 @@ def _decompose_monitor(self, gates_to_decompose=None, reps=1):
                 exp.append(dict(op=["qpd1", bh, 1, bid, lbl], qs=[i["qs"][1]], cs=[]))
             else:
                 exp.append(i)
-        ok = len(exp) == len(b) and _wire_seqs(self.num_qubits, exp) == _wire_seqs(self.num_qubits, b)
-        _W["w"].contract("decompose(TwoQubitQPDGate) keeps per-qubit order and expands each gate into its two halves", ok)
+        key = lambda i: (tuple(map(str, i["op"])), tuple(i["qs"]), tuple(i["cs"]))  # noqa: E731
+        ok = (sorted(map(key, exp)) == sorted(map(key, b))  # a permutation of the in-place expansion ...
+              and _wire_seqs(self.num_qubits, exp) == _wire_seqs(self.num_qubits, b))  # ... with the same per-qubit sequences
+        _W["w"].contract("decompose(TwoQubitQPDGate) = permutation of the in-place expansion with equal per-qubit sequences", ok)
     return out
 
 
@@ -325,7 +327,7 @@ def rand_regs(rng, n):
 
 def rand_partition(rng, n, allow_none):
     """labels for n qubits: 1..3 groups from the exotic pool (+ None for some qubits)."""
-    ng = int(rng.integers(1, 4))
+    ng = int(rng.integers(1, 4)) if (n < 2 or rng.integers(0, 3) == 0) else int(rng.integers(2, 4))
     pool = [LABEL_POOL[i] for i in rng.permutation(len(LABEL_POOL))[:ng]]
     labels = [pool[int(rng.integers(0, ng))] for _ in range(n)]
     if allow_none:
@@ -531,8 +533,8 @@ def generate(rng, tier, outdir):
     w = CaseWriter(outdir, IMPORTS, case_types=CASE_TYPES)
     _W["w"] = w
     q = tier == "quick"
-    N = dict(split=150 if q else 2500, combine=150 if q else 2500, labels=200 if q else 3000, qmap=100 if q else 1500,
-             separate=450 if q else 7000, pcq=200 if q else 3000, cut=150 if q else 2500, problem=500 if q else 8000)
+    N = dict(split=200 if q else 2500, combine=200 if q else 2500, labels=300 if q else 3000, qmap=150 if q else 1500,
+             separate=750 if q else 7000, pcq=300 if q else 3000, cut=250 if q else 2500, problem=900 if q else 8000)
 
     # ---- _split_barriers ----
     for _ in range(N["split"]):
@@ -653,7 +655,7 @@ def generate(rng, tier, outdir):
     for _ in range(N["pcq"]):
         n = int(rng.integers(1, 7))
         labels = rand_partition(rng, n if rng.integers(0, 15) else n + 1, True)
-        desc = rand_desc(rng, n, labels, within=0.5, bad2q=True)
+        desc = rand_desc(rng, n, labels if len(labels) == n else None, within=0.5, bad2q=True)
         qc = build(desc)
         ctx = CircCtx()
         cin = ctx.canon_circuit(qc)
@@ -679,7 +681,7 @@ def generate(rng, tier, outdir):
         two = [i for i, c in enumerate(cin) if c["op"][0] in ("gate", "move") and len(c["qs"]) == 2]
         ids = []
         for _k in range(int(rng.integers(0, 4))):
-            if two and rng.random() < 0.85:
+            if two and rng.random() < 0.9:
                 ids.append(int(pick(rng, two)))
             else:
                 ids.append(int(rng.integers(0, len(cin) + 2)))
@@ -716,7 +718,7 @@ def generate(rng, tier, outdir):
                 mode = "auto"
             elif m < 17:
                 labels = rand_partition(rng, n, True)
-                desc = rand_desc(rng, n, labels, within=0.6 if rng.integers(0, 2) else 0.97, three=bool(rng.integers(0, 3) == 0),
+                desc = rand_desc(rng, n, labels, within=0.4 if rng.integers(0, 3) else 0.97, three=bool(rng.integers(0, 3) == 0),
                                  bad2q=bool(rng.integers(0, 6) == 0))
                 mode = "explicit"
             else:
